@@ -48,4 +48,137 @@ theorem rne_mono (f : Fmt) {a b : Q} (ha : 0 < a.den) (hb : 0 < b.den) (h : Q.le
 example : rne Fmt.f32 ⟨1, 3⟩ ≤ rne Fmt.f32 ⟨2, 5⟩ :=
   rne_mono _ (by decide) (by decide) (by decide)
 
+/-- (5) `rne` is the identity on finite floats. -/
+theorem rne_decode (f : Fmt) {bits : Nat} (hb : bits < f.infBits) :
+    rne f (decodeQ f bits) = bits :=
+  (MinLex.rne_decode f hb).1
+
+/-- (5') so is the truncating variant. -/
+theorem rneTrunc_decode (f : Fmt) {bits : Nat} (hb : bits < f.infBits) :
+    rneTrunc f (decodeQ f bits) = bits :=
+  (MinLex.rne_decode f hb).2
+
+example : rne Fmt.f64 (decodeQ Fmt.f64 0x3FF0000000000001) = 0x3FF0000000000001 :=
+  rne_decode _ (by decide)
+
+/-- (8a) appending a `'0'` to the fraction does not change the value. -/
+theorem digitsValue_append_zero (int frac : List UInt8) (e : Int) :
+    Q.eqv (digitsValue int (frac ++ [48]) e) (digitsValue int frac e) :=
+  MinLex.digitsValue_append_zero int frac e
+
+/-- (8b) moving the decimal point: `int c . frac × 10^e = int . c frac × 10^(e+1)` (even syntactically). -/
+theorem digitsValue_shift_point (int frac : List UInt8) (c : UInt8) (e : Int) :
+    Q.eqv (digitsValue (int ++ [c]) frac e) (digitsValue int (c :: frac) (e + 1)) := by
+  rw [MinLex.digitsValue_shift_point]; exact Q.eqv_refl _
+
+/-- `ofDigits` of a concatenation. -/
+theorem ofDigits_append (a b : List UInt8) :
+    ofDigits (a ++ b) = ofDigits a * 10^b.length + ofDigits b :=
+  MinLex.ofDigits_append a b
+
+/-- (8a, 2) combined: a trailing fraction zero does not change the rounded result. -/
+theorem rne_digitsValue_append_zero (f : Fmt) (int frac : List UInt8) (e : Int) :
+    rne f (digitsValue int (frac ++ [48]) e) = rne f (digitsValue int frac e) :=
+  rne_congr f (digitsValue_den_pos _ _ _) (digitsValue_den_pos _ _ _)
+    (digitsValue_append_zero int frac e)
+
+/-- (6a) `rne` never exceeds the bit pattern of +infinity. -/
+theorem rne_le_inf (f : Fmt) (v : Q) : rne f v ≤ f.infBits := MinLex.rne_le_inf f v
+
+/-- (6b) underflow threshold: `rne f v = 0 ↔ v ≤ 2^(kmin-1)` (tie goes to the even pattern 0). -/
+theorem rne_zero_iff (f : Fmt) (hE : 1 ≤ f.ebits) {v : Q} (hv : 0 < v.den) :
+    rne f v = 0 ↔ Q.le v (ofDyadic 1 (f.kmin - 1)) :=
+  MinLex.rne_eq_zero_iff f hE hv
+
+example : rne Fmt.f32 ⟨1, 2^150⟩ = 0 :=
+  (rne_zero_iff Fmt.f32 (by decide) (Nat.pow_pos (by decide))).2 (by decide +kernel)
+
+/-- (6c) overflow threshold: `rne f v = infBits ↔ v ≥ (2^(mbits+2) - 1) · 2^(emax - mbits - 1)`,
+    `emax = 2^(ebits-1) - 1` (tie goes to infinity). -/
+theorem rne_inf_iff (f : Fmt) (hE : 2 ≤ f.ebits) {v : Q} (hv : 0 < v.den) :
+    rne f v = f.infBits ↔
+      Q.le (ofDyadic (2^(f.mbits+2) - 1) ((2:Int)^(f.ebits-1) - 1 - f.mbits - 1)) v :=
+  MinLex.rne_eq_inf_iff f hE hv
+
+example : rne Fmt.f32 ⟨2^128 - 2^103, 1⟩ = Fmt.f32.infBits :=
+  (rne_inf_iff Fmt.f32 (by decide) Nat.one_pos).2 (by decide)
+
+/-- (7) `rne` is the truncated float or its successor. -/
+theorem rne_trunc_or_succ (f : Fmt) (v : Q) (hfin : rneTrunc f v < f.infBits) :
+    rne f v = rneTrunc f v ∨ rne f v = rneTrunc f v + 1 :=
+  MinLex.rne_trunc_or_succ f v hfin
+
+/-- (7) With `b = rneTrunc f v` finite and `(m, k) = decode f b`, the choice between `b` and `b+1`
+    is decided by comparing `v` with the midpoint `(2m+1)·2^(k-1)`; a tie goes to the even significand. -/
+theorem rne_between (f : Fmt) {v : Q} (hv : 0 < v.den) (hfin : rneTrunc f v < f.infBits) :
+    let b := rneTrunc f v
+    let mid := ofDyadic (2 * (decode f b).1 + 1) ((decode f b).2 - 1)
+    (Q.lt v mid → rne f v = b) ∧ (Q.lt mid v → rne f v = b + 1) ∧
+    (Q.eqv v mid → rne f v = if (decode f b).1 % 2 = 0 then b else b + 1) :=
+  MinLex.rne_between f hv hfin
+
+/-- For `mbits ≥ 1` "even significand" is the same as "even bit pattern". -/
+theorem decode_parity (f : Fmt) (hM : 1 ≤ f.mbits) (bits : Nat) :
+    (decode f bits).1 % 2 = bits % 2 :=
+  MinLex.decode_parity f hM bits
+
+example : rne Fmt.f32 ⟨1, 3⟩ = rneTrunc Fmt.f32 ⟨1, 3⟩ + 1 :=
+  (rne_between Fmt.f32 (v := ⟨1, 3⟩) (by decide) (by decide +kernel)).2.1 (by decide +kernel)
+
+/-! ### Additional structure: order of bit patterns, floor property, nearest property -/
+
+/-- (4') the truncating variant is monotone too. -/
+theorem rneTrunc_mono (f : Fmt) {a b : Q} (ha : 0 < a.den) (hb : 0 < b.den) (h : Q.le a b) :
+    rneTrunc f a ≤ rneTrunc f b :=
+  MinLex.rneTrunc_mono f ha hb h
+
+/-- Bit patterns order exactly like the values they denote. -/
+theorem decodeQ_lt_iff (f : Fmt) {a b : Nat} : Q.lt (decodeQ f a) (decodeQ f b) ↔ a < b :=
+  MinLex.decodeQ_lt_iff f
+
+/-- A finite `rneTrunc f v` is the largest float not above `v`. -/
+theorem rneTrunc_floor (f : Fmt) {v : Q} (hv : 0 < v.den) (hfin : rneTrunc f v < f.infBits) :
+    Q.le (decodeQ f (rneTrunc f v)) v ∧ Q.lt v (decodeQ f (rneTrunc f v + 1)) :=
+  MinLex.rneTrunc_floor f hv hfin
+
+/-- ... and that property characterises it. -/
+theorem rneTrunc_eq_iff (f : Fmt) {v : Q} (hv : 0 < v.den) {bits : Nat} (hb : bits < f.infBits) :
+    rneTrunc f v = bits ↔ Q.le (decodeQ f bits) v ∧ Q.lt v (decodeQ f (bits + 1)) :=
+  MinLex.rneTrunc_eq_iff f hv hb
+
+example : rneTrunc Fmt.f32 ⟨3, 2⟩ = 0x3FC00000 :=
+  (rneTrunc_eq_iff Fmt.f32 (by decide) (by decide)).2 (by decide)
+
+/-- Criterion to establish `rne f v`: bracket `v` between a finite float and its successor, then
+    compare with their midpoint `(2m+1)·2^(k-1)`. -/
+theorem rne_of_between (f : Fmt) {v : Q} (hv : 0 < v.den) {bits : Nat}
+    (hb : bits < f.infBits) (h1 : Q.le (decodeQ f bits) v) (h2 : Q.lt v (decodeQ f (bits + 1))) :
+    let mid := ofDyadic (2 * (decode f bits).1 + 1) ((decode f bits).2 - 1)
+    (Q.lt v mid → rne f v = bits) ∧ (Q.lt mid v → rne f v = bits + 1) ∧
+    (Q.eqv v mid → rne f v = if (decode f bits).1 % 2 = 0 then bits else bits + 1) :=
+  MinLex.rne_of_between f hv hb h1 h2
+
+example : rne Fmt.f32 ⟨1, 3⟩ = 0x3EAAAAAB :=
+  (rne_of_between Fmt.f32 (v := ⟨1, 3⟩) (bits := 0x3EAAAAAA) (by decide) (by decide +kernel)
+    (by decide +kernel) (by decide +kernel)).2.1 (by decide +kernel)
+
+/-- Interval form: strictly between the neighbouring midpoints of a finite float `bits ≥ 1`,
+    `rne` returns `bits`. -/
+theorem rne_eq_of_mid_lt_lt (f : Fmt) {v : Q} (hv : 0 < v.den) {bits : Nat} (h0 : 1 ≤ bits)
+    (hb : bits < f.infBits) (h1 : Q.lt (midpoint f (bits - 1)) v) (h2 : Q.lt v (midpoint f bits)) :
+    rne f v = bits :=
+  MinLex.rne_eq_of_mid_lt_lt f hv h0 hb h1 h2
+
+example : rne Fmt.f32 ⟨4, 3⟩ = 0x3FAAAAAB :=
+  rne_eq_of_mid_lt_lt Fmt.f32 (v := ⟨4, 3⟩) (by decide) (by decide) (by decide +kernel)
+    (by decide +kernel) (by decide +kernel)
+
+/-- **The spec really is round-to-nearest**: a finite result is at least as close to `v` as the
+    value of any other bit pattern (`Q.toRat v = v.num / v.den : ℚ`). -/
+theorem rne_nearest (f : Fmt) {v : Q} (hv : 0 < v.den) (hfin : rne f v < f.infBits) (b' : Nat) :
+    abs (v.toRat - (decodeQ f (rne f v)).toRat) ≤ abs (v.toRat - (decodeQ f b').toRat) :=
+  MinLex.rne_nearest f hv hfin b'
+
+example : rne Fmt.f32 ⟨1, 3⟩ < Fmt.f32.infBits := by decide
+
 end MinLex.RneSpec
